@@ -167,13 +167,29 @@ _int8 = st.integers(0, 7)
 _int6 = st.integers(0, 5)
 
 
+# what happened to the system before the judged call (the property holds after any history): nothing, a scaled read
+# (fills the Box's reciprocal-vector cache), or an earlier wrap (which may already have enlarged the cell)
+_prior_wrap = st.sampled_from([None, None, 'scaled_read', 'wrap_first', 'wrap_first'])
+_prior_norm = st.sampled_from([None, 'scaled_read', 'scaled_read', 'wrap_first'])
+
+
+def apply_prior(system, prior, labels):
+    if prior == 'scaled_read':
+        system.atoms_prop(key='pos', scale=True)
+        system.box.reciprocal_vects
+        labels.add('prior_scaled_read')
+    elif prior == 'wrap_first':
+        system.wrap()
+        labels.add('prior_wrap')
+
+
 @st.composite
 def wrap_cases(draw):
     c = draw(_cells)
     far = draw(_int6) == 0
     rel = draw(_points_far if far else _points)
     return {'cell': c, 'pbc': draw(_pbcs), 'rel': rel, 'nprops': draw(_nprops),
-            'ret': draw(_int6) != 0, 'symbols': draw(_bool)}
+            'ret': draw(_int6) != 0, 'symbols': draw(_bool), 'prior': draw(_prior_wrap)}
 
 
 _pow2 = st.sampled_from([0.5, 1.0, 2.0, 4.0, 8.0, 16.0])
@@ -199,7 +215,8 @@ def normalize_cases(draw):
     far = draw(_int6) == 0
     rel = draw(_points_n_far if far else _points_n)
     return {'cell': c, 'rel': rel, 'nprops': draw(_nprops), 'ret': draw(_int6) != 0,
-            'via': draw(st.sampled_from(['method', 'method', 'function'])), 'symbols': draw(_bool)}
+            'via': draw(st.sampled_from(['method', 'method', 'function'])), 'symbols': draw(_bool),
+            'prior': draw(_prior_norm)}
 
 
 # ----------------------------------------------------------------------------- wrap
@@ -217,6 +234,13 @@ def oracle_wrap(case, exact=False):
     n = len(s)
     at0 = atypes(n)
     labels = gens.cell_labels(c)
+    if case.get('prior'):
+        apply_prior(system, case['prior'], labels)
+        if case['prior'] == 'wrap_first':
+            # the judged input is the system as the first wrap left it
+            exact = False
+            V = np.array(system.box.vects, dtype=float); o = np.array(system.box.origin, dtype=float)
+            x = np.array(system.atoms.pos, dtype=float); s = rel_coords(x, V, o)
     labels.add('pbc%d' % sum(pbc))
     if 0 < sum(pbc) < 3:
         labels.add('mixed_pbc')
@@ -353,6 +377,10 @@ def oracle_normalize(case):
     cond = float(np.linalg.cond(V))
     if cond > 1e3:
         return labels | {'illcond_skipped'}
+    if case.get('prior'):
+        apply_prior(system, case['prior'], labels)
+        if case['prior'] == 'wrap_first':
+            x = np.array(system.atoms.pos, dtype=float); s = rel_coords(x, V, o)
     vmax, omax = float(np.abs(V).max()), float(np.abs(o).max())
     smax = max(1.0, float(np.abs(s).max()))
     xmax = float(np.abs(x).max())
